@@ -264,7 +264,7 @@ func TestEveryCount(t *testing.T) {
 	}
 	h.RunEnum(t, h.Enum[countCase]{
 		Prop: "C15", Name: "every-leaf-count",
-		Rule: fmt.Sprintf("complete enumeration of every leaf count 0..%d (x hash function by rotation x 3 leaf patterns by rotation, SHA-256 for every count) plus 2^k+{-2..2} for k <= 17; root = iterative bottom-up reference, RFC 9162 inclusion proofs of leaves 0, n/2, k-1, k, n-1 verify; non-trivial = n >= 3 and not a power of two; distinct by construction", maxN),
+		Rule: fmt.Sprintf("complete enumeration of every leaf count 0..%d (x hash function by rotation x 3 leaf patterns by rotation, SHA-256 for every count) plus 2^k+{-2..2} for k <= 13 (quick) / 18 (thorough) and 65537, 65538, 98305, 131073 in every tier; root = iterative bottom-up reference, RFC 9162 inclusion proofs of leaves 0, n/2, k-1, k, n-1 verify; non-trivial = n >= 3 and not a power of two; distinct by construction", maxN),
 		Each: func(yield func(countCase) bool) {
 			for n := 0; n <= maxN; n++ {
 				if !yield(countCase{n, 0, n % 3}) {
@@ -276,7 +276,7 @@ func TestEveryCount(t *testing.T) {
 			}
 			maxK := 13
 			if h.Thorough() {
-				maxK = 17
+				maxK = 18
 			}
 			for k := 9; k <= maxK; k++ {
 				for d := -2; d <= 2; d++ {
@@ -284,6 +284,14 @@ func TestEveryCount(t *testing.T) {
 						if !yield(countCase{n, k % 4, 0}) {
 							return
 						}
+					}
+				}
+			}
+			// a few counts beyond 2^16 / 2^17 in every tier (shift-width and int-size slips)
+			for _, n := range []int{1<<16 + 1, 1<<16 + 2, 1<<17 + 1, 3<<15 + 1} {
+				if maxK < 16 {
+					if !yield(countCase{n, 0, 0}) {
+						return
 					}
 				}
 			}
